@@ -20,7 +20,7 @@ import (
 	f1testing "github.com/form3tech-oss/f1/v2/pkg/f1/testing"
 )
 
-var behaviours = []string{"pass", "Fail", "FailNow", "panic", "panic(error)", "Require-assertion", "FailNow-in-timed-stage", "panic-in-timed-stage", "runtime-error", "panic(int)"}
+var behaviours = []string{"pass", "Fail", "FailNow", "panic", "panic(error)", "Require-assertion", "FailNow-in-timed-stage", "panic-in-timed-stage", "runtime-error", "panic(int)", "Fatal(nil)", "Fatal(err)", "Errorf", "nil-RunFn"}
 
 func act(t *f1testing.T, b string) {
 	switch b {
@@ -37,6 +37,13 @@ func act(t *f1testing.T, b string) {
 	case "runtime-error":
 		var m map[string]int
 		m["x"] = 1
+	case "Fatal(nil)":
+		// "the call returned a bad status and no error": Fatal stops the iteration whatever it is given
+		t.Fatal(nil)
+	case "Fatal(err)":
+		t.Fatal(errors.New("component gives up"))
+	case "Errorf":
+		t.Errorf("component marks %s", "failure")
 	case "Require-assertion":
 		t.Require().True(false)
 	case "FailNow-in-timed-stage":
@@ -46,7 +53,7 @@ func act(t *f1testing.T, b string) {
 	}
 }
 
-func stops(b string) bool { return b != "pass" && b != "Fail" }
+func stops(b string) bool { return b != "pass" && b != "Fail" && b != "Errorf" && b != "nil-RunFn" }
 
 // suite: all programs of minN..maxN components over the first nb behaviours; every
 // program is set up and run twice from the same combined scenario value (two
@@ -88,6 +95,11 @@ func suite(minN, maxN, nb int) hlib.Suite {
 						}
 						log = append(log, fmt.Sprintf("setup%d", i))
 						act(t, setupB[i])
+						if iterB[i] == "nil-RunFn" {
+							// a setup-only component: it has no iteration function. Invoking it is a runtime error of
+							// that component: the iteration stops there and is reported failed.
+							return nil
+						}
 						return func(t *f1testing.T) {
 							h := "iter"
 							if t == setupT {
@@ -129,7 +141,7 @@ func suite(minN, maxN, nb int) hlib.Suite {
 					setupFailed := false
 					for i := 0; i < n; i++ {
 						want = append(want, fmt.Sprintf("setup%d", i))
-						if setupB[i] != "pass" {
+						if setupB[i] != "pass" && setupB[i] != "nil-RunFn" { // (as a setup behaviour "nil-RunFn" does nothing)
 							setupFailed = true
 						}
 						if stops(setupB[i]) {
@@ -141,6 +153,10 @@ func suite(minN, maxN, nb int) hlib.Suite {
 						for it := 1; it <= 2; it++ {
 							f := false
 							for i := 0; i < n; i++ {
+								if iterB[i] == "nil-RunFn" {
+									f = true
+									break // the iteration stops at the component that has no iteration function
+								}
 								want = append(want, fmt.Sprintf("iter%d@%d", i, it))
 								if iterB[i] != "pass" {
 									f = true
@@ -201,9 +217,9 @@ func classify(got, want []string) string {
 
 func suites(tier string) []hlib.Suite {
 	if tier == "quick" {
-		return []hlib.Suite{suite(1, 2, 10), suite(3, 3, 5)}
+		return []hlib.Suite{suite(1, 2, 14), suite(3, 3, 5)}
 	}
-	return []hlib.Suite{suite(1, 3, 10), suite(4, 4, 5)}
+	return []hlib.Suite{suite(1, 3, 14), suite(4, 4, 5)}
 }
 
 func main() { hlib.EnumMain("C20", suites) } // hlib initialises the process-wide metrics instance T.Time needs
